@@ -91,7 +91,8 @@ Section Cmds.
       split.
       + exists x'. split; [exact Hx'|]. split; [rewrite (of_nf _ _ _ _ _ _ _ OF); exact Hj|].
         split; [apply (of_box1 _ _ _ _ _ _ _ OF); congruence|].
-        intros Hvd. pose proof (of_nodropping _ _ _ _ _ _ _ OF ltac:(discriminate) Hvd). congruence.
+        split; [intros Hvd; pose proof (of_nodropping _ _ _ _ _ _ _ OF ltac:(discriminate) Hvd); congruence|].
+        intros Hvu. pose proof (of_nouninit _ _ _ _ _ _ _ OF Hvu). congruence.
       + intros t Ht Hd. cbn [read_loc] in Ht. rewrite Hx' in Ht. cbn in Ht.
         match type of Ht with mjoin ?q = _ => destruct q as [[t'|]|] eqn:Ej end; cbn in Ht; try discriminate. injection Ht as ->.
         destruct (sv_loc _ _ _ _ _ HI1 (Some p) false t) as (xt & _ & _ & _ & Hc); [econstructor 3; eauto|].
@@ -286,10 +287,10 @@ Section Cmds.
   Lemma holder_write_ok m r ex :
     holder_good m r ->
     forall p j x, r = RField p j -> get m p = Some x ->
-      (o_box x <> BNotYet \/ o_vst x = VDropping) /\ (o_vst x <> VDropping \/ ex = Some p).
+      (o_box x <> BNotYet \/ o_vst x = VDropping) /\ (o_vst x <> VDropping \/ ex = Some p) /\ o_vst x <> VUninit.
   Proof.
     intros Hh p j x -> Hx. cbn in Hh. destruct Hh as (y & Hy & Hb & Hv & _). assert (y = x) by congruence. subst.
-    split; left; congruence.
+    split; [left; congruence|]. split; [left; congruence | congruence].
   Qed.
 
   Lemma is_map_later E ex m0 m1 o x : Fr K E ex m0 m1 -> get m0 o = Some x -> is_map m1 o = o_ismap x.
@@ -465,7 +466,7 @@ Section Cmds.
                 Cur K bb nn E None m E [] m2).
       { intros bb nn Cc (x2 & Hx2 & Hv2). apply (Cur_close_ex K _ _ _ o _ _ _ _ Cc). intros y y' Hy Hy'.
         assert (y = x) by congruence. assert (y' = x2) by congruence. subst.
-        split; [congruence|]. split; [congruence|]. split; [congruence|].
+        split; [congruence|]. split; [congruence|]. split; [congruence|]. split; [congruence|].
         intros Hba. congruence. }
       destruct r'; try triv_post.
       - destruct (Cur_call_n K PostC (KDropValue o) _ _ _ _ _ _ _ _ _ eq_refl (Cur_weaken_ex _ _ _ _ _ _ _ _ C1) HP (fun o => le_n _) (or_intror eq_refl)) as [C2 Ho].
@@ -523,7 +524,7 @@ Section Cmds.
   Lemma widx_valid_kp m m' r : kp m m' -> widx_valid m r -> widx_valid m' r.
   Proof.
     intros (H1 & H2 & H3 & _). destruct r as [i|p j|]; cbn; [rewrite H1; auto | | auto].
-    intros (x & Hx & Hj & Hb). destruct (H3 p x Hx) as (x' & Hx' & Hw & Hb' & Hv' & _). exists x'. rewrite Hw, Hb', Hv'. auto.
+    intros (x & Hx & Hj & Hb & Hu). destruct (H3 p x Hx) as (x' & Hx' & Hw & Hb' & Hv' & _). exists x'. rewrite Hw, Hb', Hv'. auto.
   Qed.
   Lemma read_wloc_kp m m' r : kp m m' -> read_wloc r m' = read_wloc r m.
   Proof.
@@ -1023,5 +1024,190 @@ Section Cmds.
         + intros v' Hv'. apply lookup_insert_Some_inv in Hv' as [[<- Hv']|[Hne' Hv']]; [congruence | apply Hu, Hv'].
     Qed.
   End Unwrap.
+  Section Register.
+    Context (b : bool) (E : list id) (self : option id) (m : machine).
+    Hypothesis Hnb : NoBad m.
+    Hypothesis HI : SInv K b E [] m.
+    Let C0 : Cur K b true E None m E [] m := Cur_init K b true E None E [] m Hnb HI.
+
+    (** the second half of Cleaner::register: insert the action, downgrade the map handle *)
+    Lemma register_tail n' m1 mo mx script c :
+      k_weak K = true ->
+      Cur K b n' E None m E [] m1 -> get m1 mo = Some mx -> o_box mx = BAlloc -> (n' = true) -> (c < nslots)%nat ->
+      PostOf b E (KCmd self (CRegister NSelf script c)) m
+        (if o_mborrowed mx then (m1, raise m1)
+         else
+           let aid := next_aid m1 in
+           let m2 := m1 <| next_aid := S aid |> in
+           let '(m3, slot) := map_insert mo aid script m2 in
+           let m4 := init_side mo m3 in
+           match (side_wk m4 mo ≫= inc_wk) with
+           | None => (m4, raise m4)
+           | Some k =>
+             let m5 := remove_from_list mo (uside mo (fun _ => k) m4) in
+             let old := mjoin (cslots m5 !! c) in
+             let m6 := m5 <| cslots ::= <[c := Some (Cref mo slot aid)]> |> in
+             let m7 := match old with Some cr => weak_drop (WTo (cr_map cr)) m6 | None => m6 end in
+             ok m7 ROk
+           end).
+    Proof.
+      intros Hk C1 Hmx Hbx -> Hc.
+      destruct (o_mborrowed mx); [apply raise_post' with (b' := b) (n := true); exact C1|].
+      cbv zeta.
+      assert (C2 : Cur K b true E None m E [] (m1 <| next_aid := S (next_aid m1) |>))
+        by (eapply Cur_ieq; [exact C1 | repeat split | apply C1]).
+      set (m2 := m1 <| next_aid := S (next_aid m1) |>) in *.
+      assert (Hmx2 : get m2 mo = Some mx) by exact Hmx.
+      (* map_insert *)
+      assert (Hins : exists m3 slot f, map_insert mo (next_aid m1) script m2 = (m3, slot) /\ m3 = upd mo f m2 /\
+                (forall z, o_hdr (f z) = o_hdr z /\ o_side (f z) = o_side z /\ o_cls (f z) = o_cls z /\ o_vst (f z) = o_vst z /\
+                   o_box (f z) = o_box z /\ o_ismap (f z) = o_ismap z /\ o_fields (f z) = o_fields z /\
+                   o_cleaner (f z) = o_cleaner z /\ o_wfields (f z) = o_wfields z)).
+      { unfold map_insert. rewrite Hmx2. destruct (o_mfree mx) as [|i fr].
+        - eexists _, _, (fun x => x <| o_mslots ::= fun l => l ++ [MAction (next_aid m1) script] |>). split; [reflexivity|]. split; [reflexivity|].
+          intros z. repeat split.
+        - eexists _, _, (fun x => x <| o_mslots ::= <[i := MAction (next_aid m1) script]> |> <| o_mfree := fr |>). split; [reflexivity|]. split; [reflexivity|].
+          intros z. repeat split. }
+      destruct Hins as (m3 & slot & f & -> & -> & Hf).
+      pose proof (Cur_upd_map _ _ b true E m2 mo f mx C2 Hmx2 Hbx Hf) as C3.
+      set (m3 := upd mo f m2) in *.
+      assert (Hmx3 : get m3 mo = Some (f mx)) by (apply get_upd_eq, Hmx2).
+      assert (Hbx3 : o_box (f mx) = BAlloc) by (destruct (Hf mx) as (_ & _ & _ & _ & -> & _); exact Hbx).
+      pose proof (Cur_init_side K b true E None m E [] m3 mo (f mx) C3 Hmx3 Hbx3 Hk) as C4.
+      pose proof (init_side_get m3 mo (f mx) mo Hmx3) as Hmx4. rewrite decide_True in Hmx4 by reflexivity.
+      assert (Hbx4 : o_box (init_obj (f mx)) = BAlloc) by (unfold init_obj; destruct (h_side (o_hdr (f mx))); exact Hbx3).
+      set (m4 := init_side mo m3) in *.
+      destruct (side_wk m4 mo ≫= inc_wk) as [k|] eqn:Hsk; [|apply raise_post' with (b' := b) (n := true); exact C4].
+      destruct (side_wk m4 mo) as [k0|] eqn:Hs0; cbn in Hsk; [|discriminate].
+      pose proof (Cur_weak_inc K b true E None m E [] m4 mo k0 k C4 Hk Hs0 Hsk (or_introl (ex_intro _ _ (conj Hmx4 Hbx4)))) as C5.
+      assert (Hmx5 : get (uside mo (fun _ => k) m4) mo = Some ((init_obj (f mx)) <| o_side ::= fmap (fun s => Side k (sd_freed s)) |>))
+        by (apply get_upd_eq, Hmx4).
+      pose proof (Cur_remove_from_list K _ _ _ _ _ _ _ _ mo _ C5 Hmx5 Hbx4) as C6.
+      set (m5 := remove_from_list mo (uside mo (fun _ => k) m4)) in *.
+      (* the cleanable slot *)
+      assert (Hlen : (c < length (cslots m5))%nat \/ cslots m5 !! c = None) by (destruct (cslots m5 !! c) eqn:Hc5; [left; eapply lookup_lt_Some; eauto | right; reflexivity]).
+      destruct (cslots m5 !! c) as [oldc|] eqn:Hc5.
+      - pose proof (Cur_cslots K b true E None m E [] m5 c (Some (Cref mo slot (next_aid m1))) oldc C6 Hc5) as C7.
+        cbn [mjoin option_join]. destruct oldc as [cr|]; cbn [olc app] in C7.
+        + apply ok_post'. apply Cur_weak_drop; [exact C7 | exact Hk].
+        + apply ok_post'. exact C7.
+      - (* impossible: the slot index is valid ([sv_lens]) *)
+        exfalso. apply lookup_ge_None_1 in Hc5.
+        destruct (sv_lens _ _ _ _ _ (cur_inv _ _ _ _ _ _ _ _ _ C6)) as (_ & _ & Hl). lia.
+    Qed.
+    Lemma cmd_register_ok nd script c : self_ok E self [CRegister nd script c] m ->
+      PostOf b E (KCmd self (CRegister nd script c)) m (cmd_register K P rec self nd script c m).
+    Proof.
+      intros Hs. unfold cmd_register. destruct (k_clean K) eqn:Hkc; cbn [negb]; [|apply ok_post'; exact C0].
+      assert (Hk : k_weak K = true) by auto.
+      destruct (nresolve_ok' b E [] m self nd HI (self_ok_node _ _ _ _ nd Hs (fun H => H))) as (no & -> & Hno).
+      destruct no as [o|]; [|apply ok_post'; exact C0].
+      destruct (cslots m !! c) as [cs0|] eqn:Hcs; [|apply ok_post'; exact C0].
+      assert (Hc : (c < nslots)%nat).
+      { apply lookup_lt_Some in Hcs. destruct (sv_lens _ _ _ _ _ HI) as (_ & _ & Hl). lia. }
+      destruct (Hno o eq_refl) as (x & Hx & Hb & Hv & Hi & Hm). rewrite Hx.
+      destruct (negb (c_cleaner (class_of P (o_cls x))) || o_ismap x); [apply ok_post'; exact C0|].
+      (* the generic continuation *)
+      assert (Htail : forall m1 mo, Cur K b true E None m E [] m1 ->
+                (exists mx, get m1 mo = Some mx /\ o_box mx = BAlloc) ->
+                PostOf b E (KCmd self (CRegister nd script c)) m
+                  (match get m1 mo with
+                   | Some mx =>
+                     if o_mborrowed mx then (m1, raise m1)
+                     else
+                       let aid := next_aid m1 in
+                       let m2 := m1 <| next_aid := S aid |> in
+                       let '(m3, slot) := map_insert mo aid script m2 in
+                       let m4 := init_side mo m3 in
+                       match (side_wk m4 mo ≫= inc_wk) with
+                       | None => (m4, raise m4)
+                       | Some k =>
+                         let m5 := remove_from_list mo (uside mo (fun _ => k) m4) in
+                         let old := mjoin (cslots m5 !! c) in
+                         let m6 := m5 <| cslots ::= <[c := Some (Cref mo slot aid)]> |> in
+                         let m7 := match old with Some cr => weak_drop (WTo (cr_map cr)) m6 | None => m6 end in
+                         ok m7 ROk
+                       end
+                   | None => (emit_bad BadState mo m1, ONormal)
+                   end)).
+      { intros m1 mo C1 (mx & Hmx & Hbx). rewrite Hmx.
+        apply (register_tail true m1 mo mx script c Hk C1 Hmx Hbx eq_refl Hc). }
+      destruct (o_cleaner x) as [mo|] eqn:Hcl.
+      { (* the node already has its map *)
+        apply Htail; [exact C0|].
+        destruct (sv_loc _ _ _ _ _ HI (Some o) true mo) as (xt & Hxt & Hbt & _); [econstructor 4; eauto | eauto]. }
+      (* a new map *)
+      pose proof (Cur_new_map K b true E None m E [] m C0) as C1.
+      set (mo := length (heap m)).
+      set (x0 := Obj (hdr_new false) VLive BNotYet None 0 true [] [] None false [] [] false).
+      assert (Hfresh : get m mo = None) by (apply lookup_ge_None_2; unfold mo; lia).
+      assert (Hx1 : get (new_map m).1 mo = Some x0) by (unfold new_map, get; cbn; apply list_lookup_middle; reflexivity).
+      unfold new_map in *. cbn [fst snd] in *. fold mo.
+      match goal with |- context [if k_auto K then rec KTrigger ?mm else _] => set (m1 := mm) in * end.
+      destruct (if k_auto K then rec KTrigger m1 else (m1, ONormal)) as [m2 t] eqn:Htr.
+      destruct (trigger_call b E m true m1 C1 m2 t Htr) as (HtN & HtP & HtF).
+      assert (Hx2 : t = ONormal \/ t = OPanic -> get m2 mo = Some x0).
+      { intros Ht. destruct (fr_obj _ _ _ _ _ (HtF Ht) mo x0 Hx1) as (x' & Hx' & OF).
+        rewrite (of_notyet _ _ _ _ _ _ _ OF) in Hx'; [exact Hx' | reflexivity | discriminate | discriminate]. }
+      destruct t; try triv_post.
+      2: { (* the collection panicked: the map value is dropped while unwinding *)
+           pose proof (drop_arg_unwinding b E self (CRegister nd script c) m m2 mo x0 Hfresh (HtP eq_refl) (Hx2 (or_intror eq_refl)) eq_refl eq_refl) as HPu.
+           destruct (unwinding (rec (KDropValue mo)) m2) as [m3 r3] eqn:Hunw. cbn [fst snd] in *.
+           destruct r3; try exact HPu.
+           exfalso. unfold unwinding in Hunw. destruct (rec (KDropValue mo) (m2 <| panicking := true |>)) as [mm rr].
+           injection Hunw as _ Hr. destruct rr; try discriminate; destruct (panicking m2); discriminate. }
+      specialize (HtN eq_refl). specialize (Hx2 (or_introl eq_refl)).
+      pose proof (Cur_box_alloc K b true E None m E [] m2 mo x0 HtN Hx2 eq_refl eq_refl eq_refl Hfresh) as C3.
+      set (m3 := box_alloc K mo m2) in *.
+      assert (Hi2 : inD m2 mo = false).
+      { destruct (inD m2 mo) eqn:Ei; [|reflexivity].
+        destruct (sv_objx _ _ _ _ _ (cur_inv _ _ _ _ _ _ _ _ _ HtN) _ _ Hx2) as [_ _ _ _ _ X6]. destruct (X6 Ei) as [H _]. exfalso. apply H. reflexivity. }
+      assert (Hx3 : exists x3m, get m3 mo = Some x3m /\ o_box x3m = BAlloc /\ o_vst x3m = VLive /\ o_ismap x3m = true /\ o_mslots x3m = [] /\ inD m3 mo = false /\
+                      h_rc (o_hdr x3m) = 1 /\
+                      forall p, p <> mo -> get m3 p = get m2 p).
+      { unfold m3, box_alloc. rewrite Hx2. destruct (box_layout K x0) as [sz al].
+        eexists. split; [|split; [|split; [|split; [|split; [|split; [|split]]]]]].
+        - match goal with |- get (emit ?e (upd mo ?f ?mm)) mo = _ => change (get (emit e (upd mo f mm)) mo) with (get (upd mo f mm) mo) end.
+          apply get_upd_eq. exact Hx2.
+        - reflexivity.
+        - reflexivity.
+        - reflexivity.
+        - reflexivity.
+        - exact Hi2.
+        - reflexivity.
+        - intros p Hp. match goal with |- get (emit ?e (upd mo ?f ?mm)) p = _ => change (get (emit e (upd mo f mm)) p) with (get (upd mo f mm) p) end.
+          rewrite get_upd_ne by congruence. reflexivity. }
+      destruct Hx3 as (x3m & Hx3m & Hb3m & Hv3m & Hm3m & Hs3m & Hi3m & Hrc3m & Hoth3).
+      (* the owner at [m3] *)
+      destruct (fr_obj _ _ _ _ _ (cur_fr _ _ _ _ _ _ _ _ _ HtN) o x Hx) as (x2 & Hx2o & OFo).
+      assert (Hne : o <> mo) by (intros ->; congruence).
+      assert (Hx3o : get m3 o = Some x2) by (rewrite Hoth3 by exact Hne; exact Hx2o).
+      rewrite Hx3o. cbn [mbind option_bind].
+      destruct (o_cleaner x2) as [existing|] eqn:Hcl2.
+      - (* a nested register already created the map: the fresh one is dropped *)
+        assert (Hown : own_ok m3 mo) by (intros Hd; congruence).
+        pose proof (rec_post b E (KDropCc mo) m3 eq_refl (cur_nb _ _ _ _ _ _ _ _ _ C3) (cur_inv _ _ _ _ _ _ _ _ _ C3) Hown) as HP.
+        destruct (rec (KDropCc mo) m3) as [m4 r'] eqn:Hdc. cbn [fst snd] in HP.
+        destruct r'; try (eapply (pass_post b E self (CRegister nd script c) (KDropCc mo) m m3 m4); [reflexivity | reflexivity | exact C3 | exact HP | discriminate]).
+        destruct (Cur_call_n K PostC (KDropCc mo) _ _ _ _ _ _ _ _ _ eq_refl C3 HP (fun o => le_n _) (or_introl eq_refl)) as [C4 Hq].
+        apply Htail; [exact C4|].
+        destruct (sv_loc _ _ _ _ _ (cur_inv _ _ _ _ _ _ _ _ _ C3) (Some o) true existing) as (xe & Hxe & Hbe & _); [econstructor 4; eauto|].
+        assert (Hne2 : existing <> mo).
+        { intros ->. assert (Hl : hloc m3 (Some o) true mo) by (econstructor 4; eauto). apply hloc_refs_pos in Hl.
+          destruct (okN_alloc K _ _ _ _ _ (sv_obj _ _ _ _ _ (cur_inv _ _ _ _ _ _ _ _ _ C3) _ _ Hx3m) Hb3m) as (O1 & _).
+          rewrite cnt_id_cons_eq in O1. lia. }
+        exists xe. split; [|exact Hbe]. rewrite (Hq x3m Hx3m Hm3m Hs3m existing Hne2). exact Hxe.
+      - (* store the new map in the owner *)
+        assert (C4 : Cur K b true E None m E [] (upd o (fun x => x <| o_cleaner := Some mo |>) m3)).
+        { pose proof (Cur_set_cleaner K b true E None m E [] m3 o x2 (Some mo) C3 Hx3o) as C4. rewrite Hcl2 in C4. apply C4.
+          - intros _. rewrite (of_ismap _ _ _ _ _ _ _ OFo). exact Hm.
+          - intros t [= <-]. exists x3m. split; [exact Hx3m|]. split; [exact Hb3m|]. split; [discriminate|].
+            intros xp Hp. split; [intros _ _; auto|]. intros Hd. congruence.
+          - left. apply (of_box1 _ _ _ _ _ _ _ OFo). congruence.
+          - left. intros Hvd. pose proof (of_nodropping _ _ _ _ _ _ _ OFo ltac:(discriminate) Hvd). congruence.
+          - intros Hvu. pose proof (of_nouninit _ _ _ _ _ _ _ OFo Hvu). congruence. }
+        apply Htail; [exact C4|]. exists x3m. split; [|exact Hb3m]. rewrite get_upd_ne by exact Hne. exact Hx3m.
+    Qed.
+  End Register.
 End Cmds.
 
